@@ -179,6 +179,22 @@ func ParseRaceLog(text string) []RaceReport {
 		if len(stacks[0]) == 0 || len(stacks[1]) == 0 {
 			RaceLogStats.Unrestorable++
 		}
+		// One exception to "both sides are repository code": the router re-initialising a
+		// pooled request context for the next request (gin.(*Engine).ServeHTTP and what it
+		// calls inside gin) against repository code that still uses the context of a request
+		// whose handler has returned. The router's side has no repository frame at all.
+		if ra, rb := raceRouterReinit(stacks[0]), raceRouterReinit(stacks[1]); (ra && kb == 1) || (rb && ka == 1) {
+			f := fa
+			if ra {
+				f = fb
+			}
+			RaceLogStats.Kept++
+			if len(body) > 6000 {
+				body = body[:6000] + "\n..."
+			}
+			out = append(out, RaceReport{FuncA: f, FuncB: "gin.(*Engine).ServeHTTP", Signature: "race:" + f + "|gin.(*Engine).ServeHTTP:pooled-context-reused", Text: body})
+			continue
+		}
 		if ka == 2 || kb == 2 {
 			RaceLogStats.DroppedHarness++
 			continue
@@ -196,6 +212,22 @@ func ParseRaceLog(text string) []RaceReport {
 		out = append(out, RaceReport{FuncA: fs[0], FuncB: fs[1], Signature: "race:" + fs[0] + "|" + fs[1], Text: body})
 	}
 	return out
+}
+
+// raceRouterReinit: the access was made by gin's ServeHTTP itself (or by gin code it
+// calls) before any handler ran: the innermost frames are gin's, up to and including
+// (*Engine).ServeHTTP.
+func raceRouterReinit(fr []raceFrame) bool {
+	const gin = "github.com/gin-gonic/gin."
+	for i, f := range fr {
+		if !strings.HasPrefix(f.fn, gin) || i > 4 {
+			return false
+		}
+		if f.fn == gin+"(*Engine).ServeHTTP" {
+			return true
+		}
+	}
+	return false
 }
 
 // raceRepoFunc classifies one access stack: (function, 1) when its innermost
